@@ -907,55 +907,50 @@ func typeSwitchSubjectExpr(sw *ast.TypeSwitchStmt) ast.Expr {
 }
 
 func c05r6(p *Program, r *Report) {
+	// Authenticator.Challenge may hand back a nil Authenticator (PasswordAuthenticator does), and a configuration
+	// may have none at all: every method call on a value of the interface type - a local, a field of an exchange
+	// state, the connection's authenticator - is made only where that value is known not to be nil.
 	n := 0
 	p.forEachFunc(false, func(fi *FuncInfo) {
-		info := fi.Pkg.TypesInfo
-		// variables assigned from the 2nd result of Authenticator.Challenge
-		objs := map[types.Object]bool{}
-		ast.Inspect(fi.Decl.Body, func(x ast.Node) bool {
-			as, ok := x.(*ast.AssignStmt)
-			if !ok || len(as.Rhs) != 1 || len(as.Lhs) < 2 {
-				return true
-			}
-			if c, ok := ast.Unparen(as.Rhs[0]).(*ast.CallExpr); ok && calleeName(info, c) == "Authenticator.Challenge" {
-				if id, ok := as.Lhs[1].(*ast.Ident); ok && id.Name != "_" {
-					o := info.Defs[id]
-					if o == nil {
-						o = info.Uses[id]
-					}
-					objs[o] = true
-				}
-			}
-			return true
-		})
-		if len(objs) == 0 {
+		if fi.Pkg != p.Root || fi.Decl.Body == nil {
 			return
 		}
-		g := p.GraphOf(fi)
-		facts := g.GuardFacts()
+		info := fi.Pkg.TypesInfo
+		var g *Graph
 		ast.Inspect(fi.Decl.Body, func(x ast.Node) bool {
 			c, ok := x.(*ast.CallExpr)
 			if !ok {
 				return true
 			}
 			rx := recvExpr(c)
-			if rx == nil {
+			if rx == nil || !strings.HasPrefix(calleeName(info, c), "Authenticator.") {
 				return true
 			}
-			id, ok := ast.Unparen(rx).(*ast.Ident)
-			if !ok || !objs[info.Uses[id]] {
+			if !isFieldPath(rx) {
 				return true
 			}
 			n++
-			f, reach := facts.Before(c)
-			v, known := f.KnownStr(id.Name + " == nil")
-			r.Check(!reach || known && !v, c, fi.Name+" "+exprStr(c.Fun)+" on authenticator from Challenge", "nil-checked on every path",
+			if g == nil {
+				g = p.GraphOf(fi)
+			}
+			gg := g
+			if lit, isLit := p.enclosingFuncNode(c).(*ast.FuncLit); isLit {
+				gg = p.GraphOfLit(fi, lit)
+			}
+			f, reach := gg.GuardFacts().Before(p.stmtOf(c, fi))
+			if cn, okN := gg.cfgNodeOf(c); okN {
+				if f2, ok2 := gg.GuardFacts().Before(cn); ok2 {
+					f, reach = f2, true
+				}
+			}
+			v, known := f.KnownStr(strings.ReplaceAll(exprStr(ast.Unparen(rx)), " ", "") + " == nil")
+			r.Check(!reach || known && !v, c, fi.Name+" "+exprStr(c.Fun)+" on an authenticator", "nil-checked on every path",
 				"the Authenticator returned by Challenge may be nil (PasswordAuthenticator returns nil) and "+exprStr(c.Fun)+" is invoked without a nil check: a server sending AUTH_CHALLENGE crashes the connecting goroutine")
 			return true
 		})
 	})
 	if n == 0 {
-		r.Unresolved("no method call on an authenticator obtained from Challenge")
+		r.Unresolved("no method call on a value of type Authenticator")
 	}
 }
 
